@@ -32,8 +32,13 @@ PYFORMS = {
     "uses_a": "(a, %s)[1]",
     "uses_kw": "(kw, %s)[1]",
     "uses_n": "(n, %s)[1]",
+    # attribute access on a plain dict whose keys shadow dict methods
+    # (attribute first) and item fallback for a missing attribute
+    "dict_method": "(dd.get('nokey') or %s)",
+    "dict_item": "(dd.x and %s)",
 }
-RENDER_ARGS = {"a": "A", "kw": "K", "n": "N"}
+RENDER_ARGS = {"a": "A", "kw": "K", "n": "N",
+               "dd": {"get": "G", "keys": "K", "items": "I", "x": 1}}
 
 TAGS = ["div", "span", "p", "b", "ul", "li", "section", "em"]
 
@@ -67,6 +72,13 @@ class Gen:
                                 (1, {"v": "str", "s": "x"}),
                                 (1, {"v": "none"}), (1, {"v": "int", "i": 0}),
                                 (1, {"v": "list", "n": 0})])
+        if role == "repeat" and self.o.get("badvalues") and ch.coin(0.12):
+            return {"v": "baditer", "n": ch.choose(3),
+                    "cls": ch.pick(UNCAUGHT_NAMES + CAUGHT_NAMES)}
+        if role in ("content", "replace", "attr", "interp", "part",
+                    "define") and self.o.get("badvalues") and ch.coin(0.08):
+            return {"v": "badhtml",
+                    "cls": ch.pick(UNCAUGHT_NAMES + CAUGHT_NAMES)}
         if role == "repeat":
             return ch.weighted([(5, {"v": "list", "n": 2}),
                                 (2, {"v": "list", "n": 1}),
@@ -302,7 +314,9 @@ class Gen:
             t = ch.choose(10)
             if t == 0:
                 el["omit"] = ""
-            elif t == 1 and not has_on_error:
+            elif t == 1:
+                # (together with on-error this is a grey zone: the fallback
+                # then has no tags, whatever the guard's value - model.py)
                 el["omit"] = self.expr("omit")
         if budget_left and not el["talns"] and el["omit"] != "" and \
                 ch.coin(0.3):
@@ -677,7 +691,7 @@ def gen_fault_plans(ch: Choices, tmpl: dict, reached: list[int],
                 do = ["raise", cls]
             else:
                 role = tmpl["roles"][str(k)]
-                g = Gen(ch)
+                g = Gen(ch, {"badvalues": True})
                 do = ["ret", g.value_for(role)]
             n = ch.weighted([(5, "*"), (3, 0), (2, 1)])
             plan.append({"site": k, "n": n, "do": do})
